@@ -108,6 +108,9 @@ int main(int argc, char **argv) {
     }
     for (int64_t v : {2147483646LL, 2147483647LL, 2147483648LL, 2147483649LL, 4294967294LL, 4294967295LL, 3000000000LL, 65535LL, 65536LL, 65537LL}) lits.push_back({std::to_string(v), v});
     for (int64_t v : {2147483647LL, 2147483648LL, 65536LL, 255LL, 256LL}) lits.push_back({"-" + std::to_string(v), -v});
+    // decimal is decimal: leading zeros change nothing (no octal), digits 8 and 9 included
+    for (const char *z : {"010", "0100", "08", "09", "0256", "00017", "04294967295"}) lits.push_back({z, (int64_t)strtoll(z, 0, 10)});
+    for (const char *z : {"010", "0256", "02147483648"}) lits.push_back({std::string("-") + z, -(int64_t)strtoll(z, 0, 10)});
     long bad = 0, n = 0; std::string firstLit, firstMn;
     // source layouts around the literal: newline, nothing at all (the literal is the last thing in the file), CRLF, a
     // tab and trailing comment, several blanks
